@@ -536,10 +536,14 @@ func ruleC03Glob(c *Checker) {
 		return
 	}
 	const marker = "\x00"
+	peekAs := rune(-2) // -2: leave Peek to the evaluator (unknown)
 	fragments := func(r rune) ([]string, bool) {
 		ev := p.newEvaluator(func(fn *ssa.Function, v ssa.Value) (absVal, bool) {
 			if fn == comp && isNext(v) {
 				return absConst(constant.MakeInt64(int64(r))), true
+			}
+			if cl, ok := v.(*ssa.Call); ok && fn == comp && peekAs != -2 && isMethod(calleeObj(cl), "text/scanner", "Scanner", "Peek") {
+				return absConst(constant.MakeInt64(int64(peekAs))), true
 			}
 			if fn == comp && v == ssa.Value(acc) {
 				return absConst(constant.MakeString(marker)), true
@@ -633,6 +637,24 @@ func ruleC03Glob(c *Checker) {
 			}
 		}
 		c.check(bad == "" && single == 1, R, name, "fragments for '*'", p.Pos(comp.Pos()), fmt.Sprintf("appends %q: one single-star form (possibly empty run of non-separator characters), the others cross separators", fr), fmt.Sprintf("'*' is not translated to 'any run of non-separator characters, possibly empty' (fragments %q; %s)", fr, bad))
+	}
+	// two stars in a row: whatever is appended when the rune after a '*' is another '*' crosses separators — a
+	// second reading of `**` as a plain star (glued to other characters, "mid-segment") must not be reachable for
+	// the `**` that follows the `**/` every unanchored pattern is given
+	peekAs = '*'
+	fr2, ok2 := fragments('*')
+	peekAs = -2
+	if ok2 {
+		bad2 := ""
+		for _, f := range fr2 {
+			re, err := syntax.Parse(prefix+f, syntax.Perl)
+			if err != nil || !canMatchAny(re, sep) {
+				bad2 = f
+			}
+		}
+		c.check(bad2 == "" && len(fr2) > 0, R, name, "fragments for '**'", p.Pos(comp.Pos()), fmt.Sprintf("with another '*' next, appends %q: all cross separators", fr2), fmt.Sprintf("with another '*' next, %q can be appended, which does not cross a separator: a `**` is read as a plain star on some path (state carried from the characters before it), so `**/name` — which is what every unanchored rule becomes — stops matching at the top level", bad2))
+	} else {
+		c.fail(R, name, "fragments for '**'", p.Pos(comp.Pos()), "what is appended for '**' is not a constant the partial evaluator can compute")
 	}
 	// an ordinary character is appended as itself
 	fr, ok = fragments('a')
